@@ -17,3 +17,4 @@ def run(chk, tier):
     X.check_traits(chk, tier, chk.seed, {'C05'})
     F = load(chk, 'std')
     E.eval_table(chk, F, 'R05.6', 'std')
+    E.lazy_rendering(chk, F, 'R05.7', 'std')
